@@ -153,6 +153,8 @@ def algebra_cases(draw, max_taxa, max_trees):
             "ops": [draw(st.sampled_from(OPS)) for _ in range(P)], "nest": draw(st.booleans()),
             "explicit": draw(st.booleans()), "use_w": draw(st.booleans()), "master_first": draw(st.booleans()),
             "prequery": draw(st.booleans()), "from_empty": draw(st.booleans()),
+            # the last `late` trees join no part: they are added to the merged collection one at a time afterwards
+            "late": draw(st.sampled_from([0, 0, 1, 2])), "late_route": draw(st.sampled_from(["add_tree", "append", "insert"])),
             # some samples mix trees over different leaf sets of the one namespace (taxa dropped per tree)
             "drop": ([sorted(draw(st.sets(st.integers(0, s["n"] - 1), max_size=max(0, min(2, s["n"] - 4))))) for _ in range(k)]
                      if draw(st.integers(0, 3)) == 0 else None)}
@@ -193,7 +195,8 @@ def check_algebra(ctx, case):
     for rt in rts:
         R.add_tree(fresh(rt))
     P = case["P"]
-    members = [[i for i, p in enumerate(case["assign"]) if p == q] for q in range(P)]
+    late = list(range(len(rts)))[len(rts) - min(case.get("late", 0), len(rts) - 1):] if case.get("late") else []
+    members = [[i for i, p in enumerate(case["assign"]) if p == q and i not in late] for q in range(P)]
     parts = []
     for q in range(P):
         ta = dendropy.TreeArray(**kw)
@@ -258,6 +261,17 @@ def check_algebra(ctx, case):
     acc = order[0]
     for j, nxt in enumerate(order[1:]):
         acc = merge(acc, nxt, case["ops"][j % len(case["ops"])])
+    for i in late:
+        # growth after the merges: the merged collection is a collection like any other
+        lr = case.get("late_route", "add_tree")
+        if lr == "add_tree":
+            ctx.call("C06.add_after_merge:add_tree", acc.add_tree, fresh(rts[i]))
+        elif lr == "append":
+            ctx.call("C06.add_after_merge:append", acc.append, fresh(rts[i]))
+        else:
+            ctx.call("C06.add_after_merge:insert", acc.insert, case["ins"][0] % (len(acc) + 1), fresh(rts[i]))
+    if late:
+        ctx.cls("A:trees_added_after_merge")
     empties_after_nonempty = any(sizes[j] == 0 and any(sizes[:j]) for j in range(len(sizes)))
     nonorig = [q for q in case["order"] if members[q]]
     if empties_after_nonempty:
@@ -274,6 +288,8 @@ def check_algebra(ctx, case):
         acc2 = dendropy.TreeArray(**kw)
         for nxt in reversed(order[1:]):
             acc2 = merge(acc2, nxt, "update")
+        for i in late:
+            ctx.call("C06.add_after_merge:add_tree", acc2.add_tree, fresh(rts[i]))
         compare_arrays(ctx, acc2, R, len(rts), lambda: "SECOND merge of the same parts in reversed order; " + tag(), canons, rooted)
         # and the first accumulator is not disturbed by the second round either
         compare_arrays(ctx, acc, R, len(rts), lambda: "first accumulator re-checked after the second merge; " + tag(), None, rooted)
